@@ -11,7 +11,7 @@
 From Coq Require Import ZArith NArith Reals Lia Lra List Bool.
 From Flocq Require Import Core BinarySingleNaN.
 From SJ Require Import Base.Bytes Base.FloatB Gen.Tables Gen.LexTables Model.Read Model.Num Model.Lex.
-From SJ Require Import Proofs.FloatDefault Proofs.FloatOracle.
+From SJ Require Import Proofs.FloatDefault Proofs.FloatOracle Proofs.LexOracle.
 Open Scope Z_scope.
 
 (* ------------------------------------------------------------------ *)
@@ -157,6 +157,31 @@ Proof.
   - lia.
 Qed.
 
+(* m < 2^53, -22 <= e <= 37: the rounded value is far below 2^1024 (m * 10^e < 2^53 * 10^37 < 2^200) *)
+Lemma fast_value_small (m e : Z) : 0 <= m -> m < 2 ^ 53 -> -22 <= e <= 37 ->
+  (Rabs (RNE64 (IZR m * powerRZ 10 e)) < bpow radix2 1024)%R.
+Proof.
+  intros Hm Hlt He.
+  apply Rle_lt_trans with (bpow radix2 200); [|apply bpow_lt; lia].
+  apply RNE64_abs_le; [apply format_bpow64; lia|].
+  rewrite Rabs_pos_eq.
+  - destruct (Z.leb_spec 0 e) as [Hpos|Hneg].
+    + rewrite powerRZ_10_nonneg by lia. rewrite <- mult_IZR, bpow_IZR by lia. apply IZR_le.
+      apply Z.le_trans with (2 ^ 53 * 10 ^ 37).
+      { apply Z.mul_le_mono_nonneg; try lia. apply Z.pow_le_mono_r; lia. }
+      apply Z.leb_le. vm_compute. reflexivity.
+    + replace e with (- (- e)) by lia. rewrite powerRZ_10_neg by lia.
+      apply Rle_trans with (IZR m).
+      { assert (Hp : (1 <= IZR (10 ^ (- e)))%R).
+        { apply IZR_le. assert (0 < 10 ^ (- e)) by (apply Z.pow_pos_nonneg; lia). lia. }
+        assert (Hm' : (0 <= IZR m)%R) by (apply IZR_le; lia).
+        rewrite <- (Rmult_1_r (IZR m)) at 2.
+        apply Rmult_le_compat_l; [exact Hm'|].
+        rewrite <- Rinv_1. apply Rinv_le_contravar; [lra|exact Hp]. }
+      rewrite bpow_IZR by lia. apply IZR_le. assert (2 ^ 53 < 2 ^ 200) by reflexivity. lia.
+  - apply Rmult_le_pos; [apply IZR_le; lia|]. apply powerRZ_le. lra.
+Qed.
+
 (* with the oracle theorem: the fast path answer is the IEEE value nearest to m * 10^e *)
 Corollary lex_fast_correct_real : forall (m : N) (e : Z) (bits : N),
   (0 < m)%N -> fast_path F64 m e = Some bits ->
@@ -178,28 +203,46 @@ Proof.
       apply andb_prop in Hd. destruct Hd as (Hd1 & Hd2). apply Z.leb_le in Hd1, Hd2. lia. }
   destruct Hlt as (Hlt & He).
   destruct (rne_decimal_correct (Z.of_N m) e ltac:(lia)) as (H1 & H2 & H3).
-  - (* the rounded value is far below 2^1024: m * 10^e < 2^53 * 10^37 < 2^200 *)
-    apply Rle_lt_trans with (bpow radix2 200); [|apply bpow_lt; lia].
-    apply RNE64_abs_le; [apply format_bpow64; lia|].
-    rewrite Rabs_pos_eq.
-    + destruct (Z.leb_spec 0 e) as [Hpos|Hneg].
-      * rewrite powerRZ_10_nonneg by lia. rewrite <- mult_IZR, bpow_IZR by lia. apply IZR_le.
-        apply Z.le_trans with (2 ^ 53 * 10 ^ 37).
-        { apply Z.mul_le_mono_nonneg; try lia. apply Z.pow_le_mono_r; lia. }
-        apply Z.leb_le. vm_compute. reflexivity.
-      * replace e with (- (- e)) by lia. rewrite powerRZ_10_neg by lia.
-        apply Rle_trans with (IZR (Z.of_N m)).
-        { assert (Hp : (1 <= IZR (10 ^ (- e)))%R).
-          { apply IZR_le. assert (0 < 10 ^ (- e)) by (apply Z.pow_pos_nonneg; lia). lia. }
-          assert (Hm' : (0 <= IZR (Z.of_N m))%R) by (apply IZR_le; lia).
-          rewrite <- (Rmult_1_r (IZR (Z.of_N m))) at 2.
-          apply Rmult_le_compat_l; [exact Hm'|].
-          rewrite <- Rinv_1. apply Rinv_le_contravar; [lra|exact Hp]. }
-        rewrite bpow_IZR by lia. apply IZR_le. assert (2 ^ 53 < 2 ^ 200) by reflexivity. lia.
-    + apply Rmult_le_pos; [apply IZR_le; lia|].
-      apply powerRZ_le. lra.
+  - apply fast_value_small; lia.
   - split; [exact H1|]. split; [exact H3|exact H2].
 Qed.
 
+(* in terms of Model/Num.v: whenever the fast path of the algorithm answers, it answers what the specification
+   `f64_fr` (by which Model/Num.v represents lexical::parse_concise_float) answers — never "out of range" *)
+Theorem lex_fast_refines : forall (sig : N) (e : Z) (bits : N),
+  fast_path F64 sig e = Some bits ->
+  exists f : b64, f64_fr sig e = Some f /\ bits_of_b64 f = bits /\
+                  parse_concise_float F64 sig e = bits.
+Proof.
+  intros sig e bits H. exists (rne_decimal (Z.of_N sig) e).
+  assert (Hb : bits = bits_of_b64 (rne_decimal (Z.of_N sig) e)) by (apply lex_fast_correct; exact H).
+  split; [|split; [symmetry; exact Hb|unfold parse_concise_float, concise_trace; rewrite H; reflexivity]].
+  unfold f64_fr. cbv zeta.
+  destruct (N.eq_dec sig 0) as [->|Hne].
+  - reflexivity.
+  - destruct (lex_fast_correct_real sig e bits ltac:(lia) H) as (f & Hf & Hfin & _ & _).
+    assert (Hni : b64_is_inf (rne_decimal (Z.of_N sig) e) = false).
+    { (* bits determine infinity: the fast-path result is finite *)
+      destruct (rne_decimal_cases (Z.of_N sig) e ltac:(lia)) as [(F1 & _)|(I1 & G1)].
+      - destruct (rne_decimal (Z.of_N sig) e); try reflexivity; discriminate F1.
+      - exfalso.
+        (* the rounded value is below 2^200, see lex_fast_correct_real: reuse its finiteness through B2R *)
+        assert (Hfast : Z.of_N sig < 2 ^ 53 /\ -22 <= e <= 37).
+        { unfold fast_path in H. change (EXP_LIMIT_MIN F64) with (-22) in H. change (EXP_LIMIT_MAX F64) with 22 in H.
+          change (MANTISSA_LIMIT F64) with 15 in H. change (Z.to_N (MANTISSA_SIZE F64 + 1)) with 53%N in H.
+          destruct (N.eqb_spec sig 0) as [Hm0|Hm0]; [lia|].
+          destruct (N.eqb_spec (N.shiftr sig 53) 0) as [Hsh|Hsh]; cbn [negb] in H; [|discriminate H].
+          apply shiftr_zero_lt in Hsh. split; [change (2 ^ 53) with (Z.of_N (2 ^ 53)); lia|].
+          destruct (Z.eqb_spec e 0) as [He0|He0]; [lia|].
+          destruct ((-22 <=? e) && (e <=? 22)) eqn:Hr.
+          - apply andb_prop in Hr. destruct Hr as (Hr1 & Hr2). apply Z.leb_le in Hr1, Hr2. lia.
+          - destruct ((0 <=? e) && (e <=? 22 + 15)) eqn:Hd; [|discriminate H].
+            apply andb_prop in Hd. destruct Hd as (Hd1 & Hd2). apply Z.leb_le in Hd1, Hd2. lia. }
+        destruct Hfast as (Hlt & He).
+        apply (Rlt_not_le _ _ (fast_value_small (Z.of_N sig) e ltac:(lia) Hlt He)). exact G1. }
+    rewrite Hni. reflexivity.
+Qed.
+
 Print Assumptions lex_fast_correct.
+Print Assumptions lex_fast_refines.
 Print Assumptions lex_fast_correct_real.
